@@ -310,6 +310,8 @@ class Ctx:
         self.has_with = PROFILES[prof]["has_with"]
         self.checked = set()  # canonical states whose state clauses (c), (d) were evaluated
         self.bad = {}  # ... and those among them that violated one: state -> (clause, getter name, text)
+        self.merge = False  # merge bit-identical states in the sequence enumeration (thorough tier only)
+        self.expanded = set()
         self.idx_after_clobber = [i for i, e in enumerate(self.A) if e[1] in ("stop_carrier_wave", "reenter")]
         self.found = []  # (sig, what) of the current step (for replay)
 
@@ -526,6 +528,14 @@ def _dfs(ctx, st, hist, depth, stats):
         if len(hist) < 2 and (ctx.found or st2[2].regfile() != st[2].regfile()):
             ctx.rep.nt("%s%s:%r" % (ctx.prof, "+" if ctx.plus else "-", tuple(hist) + (i,)))
         if ok and depth > 1:
+            if ctx.merge:
+                # thorough tier: a state bit-identical to one whose continuations (of this length) were already
+                # executed by this worker has, the system being deterministic, the same continuations
+                k = (depth - 1, ctx.canon(st2))
+                if k in ctx.expanded:
+                    stats[3] += len(ctx.A) ** (depth - 1)
+                    continue
+                ctx.expanded.add(k)
             _dfs(ctx, st2, hist + [i], depth - 1, stats)
 
 
@@ -533,6 +543,7 @@ def w_seq(item, rep):
     """all call sequences of length <= depth that start with alphabet entry i0"""
     prof, plus, seed, pid, i0, depth = item
     ctx = Ctx(rep, pid, prof, plus, seed, wid="seq%d%d" % (plus, i0))
+    ctx.merge = depth > 2
     st = build(prof, plus)
     check_defaults(ctx, st)
     stats = [0, 0, 0, 0]
@@ -545,7 +556,7 @@ def w_seq(item, rep):
     if ok and depth > 1:
         _dfs(ctx, st, [i0], depth - 1, stats)
     part = "seq-%s-%s" % (prof, "plus" if plus else "nonplus")
-    rep.part(part, len1=stats[0], len2=stats[1], len3=stats[2])
+    rep.part(part, len1=stats[0], len2=stats[1], len3=stats[2], len3_merged=stats[3])
     if i0 == 3 and plus:
         rep.sample({"part": part, "first": show(ctx.A[i0]), "sequences": sum(stats), "alphabet": len(ctx.A)})
 
@@ -636,8 +647,9 @@ def run(tier, seed, rep, only=None):
         rule="E-BFS on one real RF24 object (inside its `with` block) bound to a simulated nRF24L01+ and nRF24L01 (non-plus). "
              "(1) every call sequence of length <= seq_depth over the full alphabet (every setter in every accepted input form with "
              "in-domain / boundary / out-of-domain arguments incl. pipe numbers -1..6, every getter, open/close rx/tx pipes with 0..6 byte "
-             "addresses, interrupt_config x8, power, listen, carrier-wave start/stop, load_ack, `with` re-entry), every transition "
-             "executed; (2) explicit-state BFS with merging of bit-identical states (radio + all driver attributes + reference) to "
+             "addresses, interrupt_config x8, power, listen, carrier-wave start/stop, load_ack, `with` re-entry); every transition "
+             "is executed for lengths <= 2; the third call is not re-executed from a state bit-identical to one this worker already "
+             "expanded (parts.*.len3_merged); (2) explicit-state BFS with merging of bit-identical states (radio + all driver attributes + reference) to "
              "bfs_depth inside each register-sharing group, one root per first call. Oracle after every call: documented exception; "
              "whole register file == vf.ref.regs prediction (own field: encoding, other field: foreign); no reserved / out-of-range "
              "/ read-only register write; and once per distinct state: a `with` re-entry on a copy changes no register (cache == "
